@@ -16,6 +16,9 @@ try:
     for p in props:
         try:
             keys, errs = selftest.violations_on(scratch, p)
+            from ucgverif import core
+            known, _ = core.load_known()
+            keys = [k for k in keys if (p, k) not in known]
         except extract.CannotAnalyse as e:
             print(sid, p, "cannot analyse", str(e)[-300:]); continue
         print(sid, p, "VIOLATIONS" if keys else "silent", keys[:6], errs[:3])
